@@ -726,8 +726,10 @@ inductive RStep (w : World) (op : Op) (rs' : List RouterSt) : Prop
 
 abbrev isMount := isMountOp
 
-theorem rstep (w : World) (op : Op) (hm : isMount op = false) : RStep w op (apply w op).routers := by
+theorem rstep (w : World) (op : Op) (hm : isMount op = false) (hwh : isWhereOp op = false) :
+    RStep w op (apply w op).routers := by
   cases op with
+  | whereOp r v p => simp [isWhereOp] at hwh
   | newRouter => exact .new rfl rfl
   | use r hs =>
     refine .use r hs (by simp [selUse]) ?_ rfl rfl
@@ -972,7 +974,8 @@ theorem rinvAt_route (r : Nat) (rs : RouterSt) (h : RInvAt script t r rs) (rec :
 
 end
 
-def NoMount (script : List Op) : Prop := ∀ op ∈ script, isMount op = false
+/-- neither `Mount` nor a constraint added to an existing route -/
+def NoMount (script : List Op) : Prop := ∀ op ∈ script, isMount op = false ∧ isWhereOp op = false
 
 theorem routers_length (script : List Op) (hnm : NoMount script) :
     ∀ t, t ≤ script.length → (W script t).routers.length = 1 + cnt isNewRouter script t := by
@@ -983,7 +986,7 @@ theorem routers_length (script : List Op) (hnm : NoMount script) :
     intro ht
     have htl : t < script.length := ht
     have hm := hnm script[t] (List.getElem_mem htl)
-    have hs := rstep (W script t) script[t] hm
+    have hs := rstep (W script t) script[t] hm.1 hm.2
     rw [← W_succ script t htl] at hs
     have hcnt := cnt_succ isNewRouter script t htl
     have ih' := ih (Nat.le_of_lt htl)
@@ -1043,7 +1046,7 @@ theorem rinv (script : List Op) (hnm : NoMount script) (hwf : WFR script) :
     have htl : t < script.length := ht
     have ih' := ih (Nat.le_of_lt htl)
     have hm := hnm script[t] (List.getElem_mem htl)
-    have hs := rstep (W script t) script[t] hm
+    have hs := rstep (W script t) script[t] hm.1 hm.2
     rw [← W_succ script t htl] at hs
     have hlen := routers_length script hnm t (Nat.le_of_lt htl)
     cases hs with
@@ -1622,10 +1625,10 @@ theorem wf_of_wfB (script : List Op) (h : wfB script = true) : WF script := by
     | vgroup v seg hs => simpa [ownRefsOK] using h4
     | _ => trivial
 
-theorem noMount_of_noMountB (script : List Op) (h : noMountB script = true) : NoMount script := by
+theorem noMount_of_noMountB (script : List Op) (h : noMountB script = true) (hw : noWhereB script = true) :
+    NoMount script := by
   intro op hop
-  simp only [noMountB, List.all_eq_true] at h
-  have := h op hop
-  simpa using this
+  simp only [noMountB, noWhereB, List.all_eq_true] at h hw
+  exact ⟨by simpa using h op hop, by simpa using hw op hop⟩
 
 end Rivaas.Compose
